@@ -29,7 +29,15 @@ class GroupStructure(Proxy):
         self.lab = labels.snapshot()
         self.n = labels.shape[0]
         tag = c.fresh_name("grp")
-        self.G = c.fresh("ngroups", "int")
+        hint = c.ghost.get("group_count_hint")
+        if hint is not None:
+            # structural bound chosen by the contract configuration: the number of distinct labels is this CONCRETE
+            # number (an assumption on the inputs, recorded with the obligations it was used for)
+            self.G = int(hint)
+            c.assume(self.n >= int(hint))
+            c.used_prelude.add("structural bound: exactly %d distinct labels (occupied blocks)" % int(hint))
+        else:
+            self.G = c.fresh("ngroups", "int")
         self._key = z3.Function("key_" + tag, z3.IntSort(), z3.IntSort())
         self._grp = z3.Function("grpof_" + tag, z3.IntSort(), z3.IntSort())
         self._rep = z3.Function("rep_" + tag, z3.IntSort(), z3.IntSort())
